@@ -29,7 +29,7 @@ GROUPS["reader_step"] = {
     "timeout": {"quick": 1500, "thorough": 5400},
     "flags_tier": {"quick": ["--default-unwind", "8"], "thorough": ["--default-unwind", "11"]},
     "harnesses": [
-        ("step_request_more", {"props": ["C02", "C09", "C10", "C14", "C01"], "cost": 9,
+        ("step_request_more", {"props": ["C02", "C09", "C10", "C14", "C01", "C04", "C08"], "cost": 9,
                                "what": "one request_more from any Inv-state: window content, position, mark, flags, one read, buffer size bound"}),
         ("step_request", {"props": ["C02", "C09", "C14"], "cost": 3,
                           "what": "request(n): falls short only at end/error, no read when buffered data suffices"}),
@@ -625,6 +625,8 @@ PROPERTIES["C04"] = {
 
 PROPERTIES["C05"] = {
     "level": "model_checking",
+    # panic-freedom and progress are checked by every harness of the tokenizer groups
+    "all_harnesses": ["cnf_token_t0", "aiger_token_t0", "btor2_token_t0"],
     "groups": ["text_t0", "cnf_token_t0", "aiger_token_t0", "aiger_token_small", "btor2_token_t0", "btor2_token_wide", "cnf_parser_t2", "aiger_ascii_t2", "aiger_binary_t2", "btor2_parser_t2", "wcnf_parser_t2", "gcnf_parser_t2"],
     "claim": "Panic/overflow/termination freedom per unit: every harness of the tokenizer and parser-control tiers is checked by CBMC with Rust's checked semantics (arithmetic overflow, slice bounds, unwrap/expect, debug assertions are verification conditions) and with unwinding assertions (every scanner loop exits within the window), from symbolic LineReader/parser states, so error-location arithmetic (position - line_start, count - 1, (I+1)*2, limit -= count) is covered for all values.",
     "level_note": "Absence of overflow in the checked build implies the unchecked build computes the same values. Memory-allocation bounds are OUTSIDE: symbolic allocation sizes exhaust CBMC (the AIGER pre-allocation defect D6 was found by reading and fixed, no check reports it). Stack depth: no recursion in the parsers (not checked by the solver). T2 coverage: cnf next_clause/new, AIGER Header::parse/Parser::new/next_symbol; other control logic only at token level.",
